@@ -7,6 +7,7 @@ import os
 ROOT = os.path.dirname(os.path.abspath(__file__))
 
 HOOK_COMMITS = ["fd7931a"]
+FIX_COMMITS = ["908afde", "7500af7", "0c458dd", "083bfe9", "1cdef64", "d4e0d22"]
 
 ALL = [f"C{i:02d}" for i in range(1, 21)]
 
@@ -88,27 +89,27 @@ CHECKS = {
             "Schedules come from the Go scheduler; a race needing an interleaving the runs never hit is missed. Uses the add-only hook NewVerifCache.",
             "DESIGN.md section 4, C15"),
     "C01": ("exploration",
-            "model-based stateful property testing (rapid state machine) + bounded-exhaustive state x operation enumeration against a reference cache model",
+            "model-based stateful property testing (rapid state machine) + bounded-exhaustive state x operation enumeration against a reference cache model; thorough tier adds a native coverage-guided fuzz campaign over the same property (rapid.MakeFuzz)",
             "The real cache actor is driven by generated sync/update/refilter histories (duplicates, stale, zero, negative and non-numeric versions, empty lists) and compared with a reference map model after every operation through List and Get; the universe named in the property (2 keys x 6 versions x 2 labels x 4 filters) is enumerated completely in the thorough tier: every single next operation from every reachable state. A crash of the cache goroutine kills the worker and is reported as a violation with the operation trace. Exploration: the cache is a sequential actor, so a reference model plus search over histories is the natural deciding method; it is exhaustive only for the stated small universe.",
             "Uses the add-only hook NewVerifCache (tag verif). The model is relaxed where the statement is silent (duplicate keys in one list, non-numeric versions, stale deletes).",
             "DESIGN.md section 4, C01"),
     "C02": ("exploration",
-            "stateful property testing (rapid) + bounded-exhaustive enumeration; oracle = strict event-replay algebra (round trip before + events == after)",
+            "stateful property testing (rapid) + bounded-exhaustive enumeration; oracle = strict event-replay algebra (round trip before + events == after) and the no-op-input clause; thorough tier adds a native coverage-guided fuzz campaign (rapid.MakeFuzz)",
             "For every generated or enumerated mutation the events returned are replayed with the strict algebra over the content read before the call and must reproduce, by object identity, the content read after it; unchanged content must come with zero events. Independent of C01's model (both sides are read from the real cache).",
             "Uses the add-only hook NewVerifCache (tag verif); order inside a batch is free as long as sequential replay is well-formed, as the property says.",
             "DESIGN.md section 4, C02"),
     "C17": ("exploration",
-            "property-based testing (rapid, mutation-biased pair generator) + bounded-exhaustive pair enumeration; oracle = forall-object Accept agreement of the real filters",
+            "property-based testing (rapid, mutation-biased pair generator) + bounded-exhaustive pair enumeration + native fuzzing in the thorough tier; oracle = forall-object Accept agreement of the real filters",
             "For every generated or enumerated pair of filter terms that the library reports equal (FiltersEqual or Equals) both real filters are evaluated on the whole object universe and must agree; rebuilt comparable terms must compare equal; workload filters must compare equal under permutations of their sources. All ordered pairs of depth<=1 terms over 100+ atoms are enumerated (thorough: including binary And/Or over all atoms), deeper terms are sampled with a generator biased towards near-miss pairs. Exploration: soundness is a universally quantified implication over a finite universe, which search decides directly on that universe and samples beyond it.",
             "Soundness is judged on the finite object universe described in the evidence; an unsound pair whose disagreement needs an object outside it would be missed. Incompleteness of equality is counted, not failed.",
             "DESIGN.md section 4, C17"),
     "C19": ("exploration",
-            "bounded-exhaustive enumeration of workload source sets x candidate objects + rapid generation; oracle = reference ownership predicates",
+            "bounded-exhaustive enumeration of workload source sets x candidate objects + rapid generation + native fuzzing in the thorough tier; oracle = reference ownership predicates",
             "Every source set of up to 2 (thorough: 3) workloads per kind over the selector/template/namespace universe named in the property is built into the real PodsFilter/ServicesFilter and compared with reference ownership predicates on every candidate pod/service; node, involved-object and selector-match filters are enumerated over their argument universes against objects of the right and of foreign kinds. The RC namespace defect is a recorded known finding matched by a structural signature.",
             "Trusts the reference predicates (terms_test.go) as the statement of Kubernetes ownership; universe limited to 2-3 namespaces, 2 label keys, 2-3 values.",
             "DESIGN.md section 4, C19"),
     "C18": ("exploration",
-            "property-based testing (rapid) + bounded-exhaustive term enumeration against an independent reference evaluator",
+            "property-based testing (rapid) + bounded-exhaustive term enumeration + native fuzzing in the thorough tier, against an independent reference evaluator",
             "Every generated or enumerated filter term is built with the library's constructors and compared, object by object, with an evaluator written from the property text and the Kubernetes selector documentation. Enumerates all terms of depth <= 1 over 32 atoms (thorough: also depth 2 with binary And/Or) against the complete 144-object universe and samples depth-3 terms randomly. Exploration is the right level: the domain is finite per depth and cheap to evaluate, so search against a model is both strong and honest; nothing is proved beyond the enumerated universe.",
             "Trusts the harness evaluator (terms_test.go) as the statement of boolean / label-selector semantics; label keys and values are restricted to a valid universe; NSName entries with both fields empty are outside the contract.",
             "DESIGN.md section 4, C18"),
@@ -157,7 +158,7 @@ def main():
         ],
         "checks": checks,
         "not_applicable": na,
-        "notes": "run.py <id> <quick|thorough> honours VERIF_SEED. Exit 0 = held, 1 = VIOLATION line printed, 2 = infrastructure trouble. known_findings.json lists recorded defects (KNOWN-FINDING lines) and repaired ones (fixed: entries).",
+        "notes": "Unguarded repairs of genuine defects in /repo (fix: commits): " + ", ".join(FIX_COMMITS) + ". run.py <id> <quick|thorough> honours VERIF_SEED. Exit 0 = held, 1 = VIOLATION line printed, 2 = infrastructure trouble. known_findings.json lists recorded defects (KNOWN-FINDING lines) and repaired ones (fixed: entries).",
     }
     with open(os.path.join(ROOT, "MANIFEST.json"), "w") as f:
         json.dump(m, f, indent=1)
